@@ -359,10 +359,13 @@ namespace adept {
       // in a Storage object, since it might be linked to another
       // location that is expecting the result of the assignment to
       // change the data in that location. We also require that the
-      // RHS data would otherwise be lost (but it is not clear that
-      // this is necessary).
+      // RHS owns its data outright: it must be held in a Storage
+      // object with no other link to it. If the RHS has no Storage
+      // object then it merely points at memory owned by someone else
+      // (user data, a FixedArray, a soft link), which must be copied
+      // or the result of the assignment would alias that memory.
       if ((empty() || (storage_ && storage_->n_links() == 1))
-	  && (!rhs.storage() || rhs.storage()->n_links() == 1)) {
+	  && (rhs.storage() && rhs.storage()->n_links() == 1)) {
 	// We still need to check that the dimensions match
 	if (empty() || internal::compatible(dimensions_, rhs.dimensions())) {
 	  swap(*this, rhs);
